@@ -116,6 +116,16 @@ Theorem event_order : forall s, reachable PopUnderLock s ->
   forall k, proj k (log s ++ chan s) = seq 0 (nxt s k).
 Proof. intros s Hr. apply (i_order s (inv_reachable s Hr)). Qed.
 
+(* conservation: what a task has sent is what has been applied plus what is queued; nothing is
+   ever held outside the channel and the log (sampled on the implementation's intermediate states
+   by the gated runs) *)
+Theorem event_conservation : forall s, reachable PopUnderLock s ->
+  forall k, length (proj k (log s)) + length (proj k (chan s)) = nxt s k.
+Proof.
+  intros s Hr k. pose proof (event_order s Hr k) as H.
+  apply (f_equal (@length nat)) in H. rewrite proj_app, app_length, seq_length in H. exact H.
+Qed.
+
 Theorem quiescent_when_idle : forall s, reachable PopUnderLock s ->
   (forall t, pcs s t = TIdle) -> chan s = [].
 Proof.
